@@ -246,7 +246,19 @@ class PyBase:
             if v["op"] == "ser":
                 cmds.append({"op": "ser", "type": key(t), "value": pychild.jval(t, v["value"])})
             else:
-                cmds.append({"op": "des", "type": key(t), "hex": bytes(v["data"]).hex()})
+                # the representation arrives as a sequence of fragments: whole, cut at arbitrary places, with empty fragments in between,
+                # and - for the empty representation - as no fragment at all
+                data = bytes(v["data"])
+                cmd = {"op": "des", "type": key(t), "hex": data.hex()}
+                n = len(cmds) + len(data)
+                if n % 4 == 1 and len(data) > 1:
+                    cmd["fragments"] = sorted({(n * 7) % len(data), (n * 13) % len(data)})
+                elif n % 4 == 2 and len(data) > 0:
+                    c = (n * 5) % (len(data) + 1)
+                    cmd["fragments"] = [0, c, c, len(data)]
+                elif len(data) == 0 and n % 2:
+                    cmd["nofrag"] = True
+                cmds.append(cmd)
         rs = self.child.call_many(cmds)
         out = []
         for v, r in zip(vectors, rs):
